@@ -11,7 +11,7 @@ Handlers of the on-the-wire (L2) streams that drive the REAL go-dcp client,
 metadata back ends, stream layer and `dcp.NewDcp` against the simulated node:
 
   stream c20w  `ao-wire …`, `ao-wire-f7probe`, `ao-wire-goroutines`       (C20)
-  stream c02w  `ck-f12probe`, `ck-rt`, `ck-save`, `ck-corrupt`, `ck-open`, `ck-file`, `ck-ro`   (C02)
+  stream c02w  `ck-f12probe`, `ck-rt`, `ck-save`, `ck-bulk`, `ck-corrupt`, `ck-open`, `ck-file`, `ck-ro`   (C02, C05)
   stream c15w  `st-f7probe`, `st-case`                                     (C15)
   stream c14w  `key-wire-*` (the key commands `key-cp` / `key-inst` / `key-index` of
                Driver/Keys.lean are reused unchanged)                      (C14)
@@ -371,6 +371,95 @@ def hCkSave (args : List String) (real : Option String) : Option Out := do
     some { model, verdict := same model real "C02.save-then-load" }
   | _ => none
 
+/-! ### large dirty sets in one save (`ck-bulk`) -/
+
+def two64 : Nat := 18446744073709551616
+
+/-- the document of vBucket `vb` in a `ck-bulk` line with salt `K` (harness/l2_checkpoint.go `ckBulkDoc`,
+    uint64 arithmetic): with b = K·1000003 + vb, field k is (b+k)·6364136223846793005 + k·1442695040888963407 -/
+def bulkDoc (salt vb : Nat) : Doc :=
+  let b := (salt * 1000003 + vb) % two64
+  let f := fun k => ((b + k) * 6364136223846793005 + k * 1442695040888963407) % two64
+  ⟨f 1, f 2, f 3, f 4⟩
+
+/-- `loaded=[vb(U,S,SS,SE) …]` of a real observation → (vb, document); entries that are not a
+    document (`vb-`, `vbnil`, …) are left out, so a lookup of them fails -/
+def parseLoaded (r : String) : List (Vb × Doc) :=
+  match r.splitOn "loaded=[" with
+  | [_, rest] =>
+    match rest.splitOn "]" with
+    | body :: _ =>
+      (toks body).filterMap fun it =>
+        match it.splitOn "(" with
+        | [vb, d] => do some (← vb.toNat?, ← doc? ("(" ++ d))
+        | _ => none
+    | [] => []
+  | _ => []
+
+/-- `ck-bulk cb G n=N lat=MS salt=K pre=M skip=S fail=-|VB`: ONE `cbMetadata.Save` of a large dirty set
+    (the real writes overlap: the node answers each after MS ms), then `Load` of all N.
+
+    Model: `Codec.saveThenLoad` = `mdWrite … .ok` then `mdLoad` of Model/Session, exactly as `ck-save`; the
+    number of dirty vBuckets plays no role in it.  `Props/C02Codec.save_then_load_id` (every SUBSET written
+    from an empty store reads back exactly, zero documents elsewhere) and `save_then_load` (any prior store)
+    are for all n, `save_then_load_dirty` is the clause the monitor evaluates: every dirty vBucket with a
+    state entry reads back the document saved for it.  With `fail=VB` the store verdict is
+    `.part (dirty without VB)`: `storeSucceeds` is false (`part_store_reports_error`), the save must
+    return an error.
+
+    Monitor on the REAL observation (C05: "when a save completes successfully the stored checkpoint of
+    every advanced vBucket equals its position"):
+      `C05.successful-save-skipped-writes`   Save returned nil but a dirty vBucket does not read back what was
+                                             saved, or its key never received a successful xattr write
+      `C05.failed-write-reported-success`    a write was refused by the node and Save returned nil
+      `C02.save-then-load`                   any other difference from the model -/
+def hCkBulk (args : List String) (real : Option String) : Option Out := do
+  let "cb" :: _g :: rest := args | none
+  let n ← (← kvArg rest "n").toNat?
+  let _lat ← (← kvArg rest "lat").toNat?
+  let salt ← (← kvArg rest "salt").toNat?
+  let preM ← (← kvArg rest "pre").toNat?
+  let skip ← (← kvArg rest "skip").toNat?
+  let failS ← kvArg rest "fail"
+  if n = 0 || n > 1024 then none
+  let vbs := List.range n
+  let dirty := vbs.filter fun vb => skip == 0 || vb % skip != skip - 1
+  let fail : Option Vb ← if failS == "-" then some none else do
+    let v ← failS.toNat?
+    if dirty.contains v then some (some v) else none
+  let pre : AMap Doc := if preM == 0 then [] else (vbs.filter (· % preM == 0)).map fun vb => (vb, bulkDoc (salt + 1) vb)
+  let state := vbs.map fun vb => (vb, bulkDoc salt vb)
+  match fail with
+  | some fv =>
+    let ok := storeSucceeds (Codec.storeState n pre) (.part (dirty.filter (· != fv)))
+    let model := if ok then "save=ok" else "save=err"
+    let v := match real with
+      | none => "-"
+      | some r =>
+        if r == model then "ok"
+        else if (toks r).head? == some "save=ok" then "FAIL C05.failed-write-reported-success"
+        else "FAIL C02.save-then-load"
+    some { model, verdict := v }
+  | none =>
+    let (w, docs, exist) := Codec.saveThenLoad n pre state dirty
+    let ops := (w.map fun (vb, _) => (Codec.cbWriteOps (AMap.has pre vb)).length).foldl (· + ·) 0
+    let model := s!"save=ok keys={w.length} ops={ops} stray=0 " ++ showDocList docs exist
+    let v := match real with
+      | none => "-"
+      | some r =>
+        if r == model then "ok"
+        else
+          let t := toks r
+          if t.head? != some "save=ok" then "FAIL C02.bulk-save-failed"
+          else
+            let loaded := parseLoaded r
+            let lost := w.filter fun (vb, d) => AMap.get? loaded vb != some d
+            let keys := ((kvArg t "keys").bind String.toNat?).getD 0
+            if !lost.isEmpty || keys < w.length then
+              s!"FAIL C02.save-then-load C05.successful-save-skipped-writes lost={lost.length} unwritten-keys={w.length - keys}"
+            else "FAIL C02.save-then-load"
+    some { model, verdict := v }
+
 /-- `ck-ro cb|file G n=N pre=DOCS state=DOCS dirty=VBS`: the read-only wrapper -/
 def hCkRo (args : List String) (real : Option String) : Option Out := do
   let kind :: _g :: rest := args | none
@@ -656,7 +745,7 @@ end Wire
 
 def wireHandlers : List (String × (List String → Option String → Option Out)) :=
   [("ao-wire", Wire.hAoWire), ("ao-wire-f7probe", Wire.hAoF7Probe), ("ao-wire-goroutines", Wire.hAoGoroutines),
-   ("ck-f12probe", Wire.hCkF12Probe), ("ck-rt", Wire.hCkRt), ("ck-save", Wire.hCkSave), ("ck-ro", Wire.hCkRo),
+   ("ck-f12probe", Wire.hCkF12Probe), ("ck-rt", Wire.hCkRt), ("ck-save", Wire.hCkSave), ("ck-ro", Wire.hCkRo), ("ck-bulk", Wire.hCkBulk),
    ("ck-corrupt", Wire.hCkCorrupt), ("ck-file", Wire.hCkFile), ("ck-open", Wire.hCkOpen),
    ("st-f7probe", Wire.hStF7Probe), ("st-case", Wire.hStCase),
    ("key-wire-id", Wire.hKeyWireId), ("key-wire-count", Wire.hKeyWireCount), ("key-wire-dot", Wire.hKeyWireDot)]
